@@ -431,6 +431,39 @@ TABLE = {
         design_ref="6/C09, 3.6"),
 }
 
+# what rounds 4 and 5 of the seeded changes and the line-coverage run added to each specification (appended to `text`)
+ADDENDA = {
+    "C02": "Futures that are born resolved (static set_value / set_exception / set_not_value, also future<T&>) are replayed for every waiter kind.",
+    "C05": "Native entry through install_queue_and_call / create_suspend_point with a function that returns or THROWS after readying "
+           "coroutines (FullDrain on the exceptional exit), coroutine bodies left by an exception, and the coroutine's own handle (co_await self()) "
+           "held and awaited together with other ready coroutines at every position (OwnHandleUse) are part of the program alphabet.",
+    "C06": "The destroying operations (Clear, Destroy, the discarded temporary, CreateSP, scope exit) carry a control-flow context - normal flow, "
+           "stack unwinding, a destructor during unwinding, a catch handler - in both modes; Conservation / NoDoubleResume / NoLeak hold in every context.",
+    "C07": "MutexMulti.tla adds several mutex objects used by the same parties (every action indexed by mutex; per-mutex MutualExclusion / GrantOnce / "
+           "FIFO / NoOrphanLock and Independence), a shared holder slot re-assigned by the next owner from inside the hand-off (release = detach, then "
+           "unlock; callback requests through await_suspend(fn, ctx)), all histories of 5-7 calls replayed on real mutexes. The mutex replayers have "
+           "reduced-observation fallback builds: a changed private representation degrades the projection instead of breaking the check.",
+    "C08": "Shares MutexMulti.tla and the fallback builds with C07 (holder-slot hand-over, several mutexes, try_lock probes by a bystander).",
+    "C09": "Items are records built from the push argument form (one/two/zero arguments, copy, const reference, move; ValueIntact over a class type with an "
+           "initializer-list constructor, in the stored and the hand-over branch); the single-slot item / waiter containers are constants of the spec with "
+           "explicit refusal actions (PushRefused / PopRefused, SlotCapacity), replayed on queue<T,std_queue,single_item_queue>, "
+           "queue<T,single_item_queue> and the no_lock instantiation.",
+    "C11": "Jobs whose body submits to the same pool (coroutines hopping once or twice, co_await pool.run(fn), thread_pool::current(), detached and function "
+           "jobs submitting) on pools with no free worker (WorkerNeverWaitsForJob, NoFutureHangs), a second client thread calling stop() concurrently "
+           "(ThreadsOwnedOnce), and throwing function / coroutine jobs are part of the script alphabet and are replayed.",
+    "C12": "start(awaitable) has a result dimension (void / value / exception / dropped, delivered directly or through the ready queue) with StartReturn, "
+           "MainOutcome and a second start() on the same object; the awaitable forms (async&&, async&, future&) are rotated.",
+    "C13": "The body's throw step has an exception kind (application type, the library's own no_more_values / value_not_ready / await_canceled / "
+           "no_longer_available types, a non-std type: ExceptionAtPosition for every kind) and the consumer may keep one next() object and await / convert it "
+           "repeatedly (styles kco / kbool, SameSequence).",
+    "C16": "Degenerate publishes are actions of the spec and replayed: the empty batch (a self-loop that must wake nobody), a batch longer than the window, "
+           "publish on a closed publisher, subscription ahead of the stream; the range is passed as vector, list or pointer pair.",
+    "C17": "The blocking entry points of shared_future itself are waiting forms of the spec (wait / sync+value / force_sync / join / force_wait, the force_ forms "
+           "inside coroutine mode) with ThrowsAsDocumented; forms rotate over all blocking-waiter paths, two free-form configurations replay every form.",
+    "C18": "Registration and resolution carry an execution context (plain, an RAII guard during stack unwinding, a catch handler, the promise destroyed at "
+           "scope exit or by unwinding - ~promise as its own code site); no action reads the context, so CallbackOnce / RightOutcome / HelperFreedOnce hold in every one.",
+}
+
 NOT_BUILT = "check not built yet in this revision (see DESIGN.md section 10 build order)"
 
 
@@ -471,7 +504,7 @@ def main():
                 "evidence_file": "/verif/evidence/%s.json" % p,
                 "replay_cmd_template": "bin/replay {path}",
                 "engine": "tlc",
-                "level_claimed": {"category": "model_checking", "text": t["text"], "design_ref": "DESIGN.md " + t.get("design_ref", "6")},
+                "level_claimed": {"category": "model_checking", "text": t["text"] + (" " + ADDENDA[p] if p in ADDENDA else ""), "design_ref": "DESIGN.md " + t.get("design_ref", "6")},
                 "level_note": t["note"],
                 "technique": t.get("technique", TECH),
             })
